@@ -616,7 +616,9 @@ impl MleJaccard {
         let jac = dequal as f64 / self.m as f64;
         //
         let solver = GoldenSectionSearch::new(b_inf, b_sup).unwrap();
-        let init_param = jac;
+        // the solver refuses (and we would abort on) a start outside [b_inf, b_sup]: the raw fraction of equal registers
+        // can exceed b_sup when one set is much smaller than the other
+        let init_param = jac.min(b_sup);
         //
         let cost = MleCost::new(dplus as f64, dless as f64, dequal as f64, u, v, self.b);
 
